@@ -5,6 +5,8 @@
         opts: "filepass_at": k        insert a FILEPASS record (RC4, dummy salt/verifier) at record index k of the globals
                                       substream (k = 1, right after BOF, is where Excel puts it); payloads stay in clear.
                                       SST+CONTINUE and MSODRAWINGGROUP+CONTINUE count as one record each.
+              "globals_insert": [k, raw]    insert the raw record bytes (header + payload, one or more whole records) at record
+                                      index k of the globals substream (same index space; applied after filepass_at)
               "summary": {...}        extra/override SummaryInformation properties (keys of cfb.SUMMARY_PROPS / DOCSUMMARY_PROPS)
               "no_summary": True      do not write any property-set stream
               "rk": True              write integers that fit 30 bits as RK records instead of NUMBER
@@ -564,6 +566,12 @@ def workbook_stream(doc, opts: dict | None = None, images: dict | None = None) -
         if not 0 <= k <= len(g):
             raise ValueError("filepass_at out of range (0..%d)" % len(g))
         g.insert(k, [FILEPASS_RC4])
+    gi = opts.get("globals_insert")
+    if gi is not None:
+        gk, raw = gi
+        if not 0 <= gk <= len(g) or len(raw) < 4:
+            raise ValueError("globals_insert: [record index 0..%d, raw record bytes]" % len(g))
+        g.insert(gk, [bytes(raw)])
     # absolute stream offsets: BOUNDSHEET.lbPlyPos and EXTSST.ib (patching does not change any length)
     off = sum(len(x[0]) for x in g)
     for ref, sh, st in zip(bs, sheets, streams):
